@@ -62,6 +62,18 @@ OpenR(c, siglabel, sig, ra) ==
   IN IF recheck /\ labelok /\ validsk THEN "Some" ELSE "None"
 Open(c, siglabel, sig) == OpenR(c, siglabel, sig, "r")
 
+\* ciphertexts a *sender* can craft from the public building blocks (hash_to_scalar, hash_to_point, pairing,
+\* compute_v, compute_w) for the same key, identifier, scheme and message - opened with the right signature:
+\*   alpha_noncanon   the 32 bytes of alpha are not a canonical scalar encoding (alpha is only ever hashed)  -> M
+\*   len_2p64, len_2p70   the length prefix encodes 2^64 + n / 2^70 + n canonically (10 / 11 groups): the cast to the
+\*                    machine word keeps n (D13, recorded deviation)                                        -> M or nothing
+\*   len_19groups     nineteen continuation groups (the longest prefix the reader takes)                    -> nothing
+\*   len_max_minus    a length just below the machine-word maximum (overhead + len overflows)               -> nothing
+\*   len_plus1        the prefix says n + 1                                                                -> nothing
+\* Every one of them returns normally (C17).
+CraftShapes == {"alpha_noncanon", "len_2p64", "len_2p70", "len_19groups", "len_max_minus", "len_plus1"}
+CraftOutcome(sh) == CASE sh = "alpha_noncanon" -> "M" [] sh \in {"len_2p64", "len_2p70"} -> "MorNone" [] OTHER -> "None"
+
 \* ------------------------------------------------------------ adversary
 COp(op, arg) == [op |-> op, arg |-> arg]
 ApplyOp(c, o) ==
@@ -111,8 +123,9 @@ SigRecipes(c) ==
   \cup {SR(c.k, c.scheme0, c.id, "whole", 0, 0, 0, lab, "honest") : lab \in Schemes}
   \cup {SR(c.k, c.scheme0, c.id, "whole", 0, 0, 0, c.scheme0, how) : how \in {"identity", "neg"}}
   \* (the same shares presented in descending order of identifier: "shares_rev")
-  \cup {SR(c.k, s, c.id, route, tn[1], tn[2], cnt, s, "honest") : route \in {"shares", "shares_rev"},
+  \cup {SR(c.k, s, c.id, "shares", tn[1], tn[2], cnt, s, "honest") :
           s \in {"Basic", "Pop"}, tn \in {x \in (2..MaxN) \X (2..MaxN) : x[1] <= x[2]}, cnt \in 2..MaxN}
+  \cup {SR(c.k, s, c.id, "shares_rev", 2, MaxN, cnt, s, "honest") : s \in {"Basic", "Pop"}, cnt \in {2, MaxN}}
   \cup (IF c.wn = 5 /\ c.ops = <<>> THEN UNION {{SRBig(c.k, s, c.id, tn[1], tn[2], sh) : s \in {"Basic", "Pop"} \cap {c.scheme0}, sh \in {x \in Shapes : Len(ShapeIds(x, tn[1], tn[2])) >= 2}} : tn \in BigTN}
          ELSE {})
 
@@ -146,6 +159,8 @@ ADecrypt(sr) ==
   /\ LET sig == SigDen(sr)
          out == Open(ct, sr.label, sig) IN
        last' = [act |-> "TLDecrypt", ct |-> CtRec(ct), sig |-> sr, expect |-> [out |-> out],
+                crafts |-> IF ct.ops = <<>> /\ sr.route = "whole" /\ sr.how = "honest" /\ out = "Some"
+                           THEN [sh \in CraftShapes |-> CraftOutcome(sh)] ELSE [sh \in {} |-> ""],
                 touched |-> Touched(ct),
                 benign |-> LET o == Seal(PkOf(ct.k), ct.scheme0, DenMsg(ct.id), ct.wn) IN
                              (ct.u = o.u /\ ct.vk = o.vk /\ ct.vtam = "" /\ ct.scheme = ct.scheme0 /\ WOutcome(ct.wn, ct.wtam) = "M"),
